@@ -743,7 +743,8 @@ class Channel:
         If an endmarker is specified the callback will eventually
         be called with the endmarker when the channel closes.
         """
-        _callbacks = self.gateway._channelfactory._callbacks
+        factory = self.gateway._channelfactory
+        _callbacks = factory._callbacks
         with self.gateway._receivelock:
             if self._items is None:
                 raise OSError(f"{self!r} has callback already registered")
@@ -755,6 +756,20 @@ class Channel:
                 except self.gateway.execmodel.queue.Empty:
                     if not (self._closed or self._receiveclosed.is_set()):
                         _callbacks[self.id] = (callback, endmarker, self._strconfig)
+                        # the connection may be going down right now (this is
+                        # not serialized with us): if the shutdown code did not
+                        # see our registration the endmarker is up to us
+                        if (
+                            factory.finished
+                            and _callbacks.pop(self.id, None) is not None
+                            and endmarker is not NO_ENDMARKER_WANTED
+                        ):
+                            callback(endmarker)
+                    elif endmarker is not NO_ENDMARKER_WANTED:
+                        # the channel ended after we took over its queue: the
+                        # closing code could neither queue its end marker for
+                        # us nor find our callback
+                        callback(endmarker)
                     break
                 else:
                     if olditem is ENDMARKER:
